@@ -315,3 +315,68 @@ func zzC10AfterHistory(depth int) {
 }
 
 func ZZ_C10_AfterHistory() { zzC10AfterHistory(3 + zzTier()) }
+
+// The measurement IEs of a report are selected by the URR's CURRENT configuration, as the requests
+// left it: Create URR sets measurement method and information; an Update URR changes the method only
+// if it carries a Measurement Method IE and the information only if it carries a Measurement
+// Information IE - what an update does not mention stays as it was.
+func zzC10Configured() {
+	dp := &zzDP{}
+	s := zzNewServer(dp)
+	dp.ln = &s.lnode
+	n := s.NewNode(zzNodeA, zzAddrA, dp)
+	s.rnodes[zzNodeA] = n
+	cp := nondetU64("cpseid")
+	sess := n.NewSess(cp)
+	bit := func(b bool) int {
+		if b {
+			return 1
+		}
+		return 0
+	}
+	conf := zzURRConf{durat: nondetBool("durat"), volum: nondetBool("volum")}
+	kids := []*ie.IE{ie.NewURRID(1), ie.NewMeasurementMethod(0, bit(conf.volum), bit(conf.durat)), ie.NewReportingTriggers(0x02, 0x00)}
+	if nondetBool("create-has-information") {
+		conf.mnop = nondetBool("mnop")
+		kids = append(kids, ie.NewMeasurementInformation(uint8(bit(conf.mnop))<<4))
+	}
+	zzDeliver(s, zzModReq(sess.LocalID, 5, ie.NewCreateURR(kids...)), zzAddrA, 5)
+	nupd := nondetChoice("updates", 2+zzTier())
+	for i := 0; i < nupd; i++ {
+		ukids := []*ie.IE{ie.NewURRID(1)}
+		if nondetBool("update-has-method") {
+			conf.durat, conf.volum = nondetBool("durat"), nondetBool("volum")
+			ukids = append(ukids, ie.NewMeasurementMethod(0, bit(conf.volum), bit(conf.durat)))
+		}
+		if nondetBool("update-has-information") {
+			conf.mnop = nondetBool("mnop")
+			ukids = append(ukids, ie.NewMeasurementInformation(uint8(bit(conf.mnop))<<4))
+		} else {
+			// an update that only moves a threshold
+			ukids = append(ukids, ie.NewVolumeThreshold(1, 5000, 0, 0))
+		}
+		zzDeliver(s, zzModReq(sess.LocalID, uint32(6+i), ie.NewUpdateURR(ukids...)), zzAddrA, uint32(6+i))
+	}
+	base := zzSentCount()
+	zzAssert("C10.configured.requests-answered", base == 1+nupd)
+	// one report with a concrete cause and instants; the six counters symbolic
+	m := zzMeasured{urr: 1, trig: report.USAR_TRIG_VOLTH, dur: 90e9, start: 1790812800, end: 1790812807}
+	for i := range m.vol {
+		m.vol[i] = nondetU64("counter")
+	}
+	s.ServeReport(&report.SessReport{SEID: sess.LocalID, Reports: []report.Report{m.usar()}})
+	zzAssert("C10.configured.one-request", zzSentCount() == base+1)
+	if zzSentCount() == base+1 {
+		b := zzSentBytes(base)
+		h := zzParseHdr(b)
+		zzAssert("C10.configured.report-request", h.ok && h.typ == 56 && h.s && h.seid == cp)
+		urs := zzUsageReports(b, h, 80)
+		zzAssert("C10.configured.one-usage-report", len(urs) == 1)
+		if len(urs) == 1 {
+			zzCheckUR(urs[0], m, conf, 0, "configured")
+		}
+	}
+	zzCover("C10.configured.done")
+}
+
+func ZZ_C10_Configured() { zzC10Configured() }
